@@ -81,6 +81,32 @@ def mutations(t):
                 elif kind == "swap" and len(ops) >= 2 and fingerprint(ops[0]) != fingerprint(ops[1]):
                     n.operands = tuple([ops[1], ops[0]] + ops[2:])
                     out.append(("swap-operands", c, False))
+                if kind == "swap" and len(ops) >= 2:
+                    # the same nodes in the same reading order, bracketed differently: the operand after ops[j] moves to the end of the
+                    # operation found at the right edge of ops[j] (and back)
+                    for j in range(len(ops) - 1):
+                        c2 = deep(t)
+                        n2 = list(gen.nodes(c2))[i]
+                        ops2 = list(n2.operands)
+                        inner = ops2[j]
+                        while not isinstance(inner, T.BaseOperation) and inner.children:
+                            inner = inner.children[-1]
+                        if isinstance(inner, T.BaseOperation):
+                            inner.operands = tuple(list(inner.operands) + [ops2[j + 1]])
+                            n2.operands = tuple(ops2[:j + 1] + ops2[j + 2:])
+                            out.append(("regroup-absorb", c2, False))
+                    for j in range(len(ops)):
+                        c2 = deep(t)
+                        n2 = list(gen.nodes(c2))[i]
+                        ops2 = list(n2.operands)
+                        inner = ops2[j]
+                        while not isinstance(inner, T.BaseOperation) and inner.children:
+                            inner = inner.children[-1]
+                        if isinstance(inner, T.BaseOperation) and len(inner.operands) >= 1:
+                            moved = inner.operands[-1]
+                            inner.operands = tuple(inner.operands[:-1])
+                            n2.operands = tuple(ops2[:j + 1] + [moved] + ops2[j + 1:])
+                            out.append(("regroup-release", c2, False))
             if kind == "layout":
                 n.head, n.tail, n.pos, n.size = "  ", "\t", 7, 3
                 out.append(("layout-only", c, True))
@@ -104,6 +130,8 @@ def odd_trees():
         T.From(w("1"), False), T.To(T.Phrase('"x"')), T.Regex("/a/"), T.NONE_ITEM,
         T.AndOperation(T.Group(w("x")), T.Group(w("x"))), T.Range(w("10"), w("10")),
         T.UnknownOperation(T.Boost(T.Group(T.UnknownOperation(w("a"), w("b"))), 2), T.Not(T.UnknownOperation(w("c"), w("d")))),
+        T.AndOperation(w("a"), T.OrOperation(w("b"), w("c")), w("d")), T.AndOperation(w("a"), T.Group(T.OrOperation(w("b"), w("c"), w("d")))),
+        T.OrOperation(T.AndOperation(T.Not(T.OrOperation(w("a"), w("b"))), w("c")), w("d")),
     ]
 
 
